@@ -43,6 +43,24 @@ def check(prog, rep, tier):
     m = tab.model
     bgp = prog.cls(BGP_Q)
 
+    # the counter dictionaries are per-connection state created by BGP.__init__
+    init = bgp.find_method('__init__')
+    made = set()
+    for n in ast.walk(init.node):
+        if isinstance(n, ast.Assign) and isinstance(n.targets[0], ast.Attribute) and \
+                src_of(n.targets[0].value) == 'self' and isinstance(n.value, ast.Dict):
+            made.add(n.targets[0].attr)
+    missing = [a for a in ('msg_sent_stat', 'msg_recv_stat') if a not in made]
+    if missing:
+        rep.bad('R18.c', 'per-connection-counters', file=bgp.module.relpath, line=bgp.node.lineno, func=init.qualname,
+                found='%s is not created in BGP.__init__: the dictionary is shared by all protocol instances of a '
+                      'peering, so a new connection reports the totals of the old ones' % ', '.join(missing),
+                expected='self.msg_*_stat = {...} in __init__ (one per connection)', key='per-connection-counters')
+        for r_ in ('R18.a', 'R18.b', 'R18.d'):
+            rep.ok(r_, 'skipped', nontrivial=False, found='not evaluated: counters are not instance state')
+        return
+    rep.ok('R18.c', 'per-connection-counters', file=init.file, line=init.node.lineno)
+
     # ---------------------------------------------------------------- R18.a
     sends = sorted(n for n in bgp.methods if n.startswith('send_'))
     if len(sends) < 5:
